@@ -205,6 +205,35 @@ def run(ctx):
         judge(ctx, t, "typed")
         if i % 500 == 0:
             ctx.sample({"text": to_text(t)[:200], "type": static_type(t, SCHEMA)})
+    # arithmetic over points in time and durations (and unary minus): every sub-node's
+    # inferred type is None or the type the specification gives the operator
+    temporal = {
+        "datetime": [T.lit("datetime", "2021-03-05T10:00:00Z"), T.call("now"), T.call("mindatetime"), T.ident("d")],
+        "date": [T.lit("date", "2021-03-05"), T.call("date", T.ident("d")), T.ident("dd")],
+        "duration": [T.lit("duration", "P1D"), T.lit("duration", "-PT2H"), T.ident("dur")],
+        "int": [T.I(2), T.call("year", T.ident("d")), T.ident("a")],
+        "float": [T.lit("float", "1.5"), T.call("round", T.ident("f")), T.ident("f")],
+        "time": [T.lit("time", "10:00:00"), T.call("time", T.ident("d"))],
+    }
+    j = 0
+    for op in ("add", "sub", "mul", "div"):
+        for lt in temporal:
+            for rt in temporal:
+                from ..ref.types import arith_type
+                if arith_type(op, lt, rt) is None:
+                    continue
+                for l in temporal[lt]:
+                    for r in temporal[rt]:
+                        j += 1
+                        if not ctx.mine(j):
+                            continue
+                        e = ("bin", op, l, r)
+                        ctx.cls("temporal-arith:%s:%s:%s" % (op, lt, rt))
+                        judge(ctx, ("cmp", "eq", e, e), "temporal-arith")
+                        judge(ctx, ("cmp", "gt", ("bin", "add", e, T.lit("duration", "PT1H")) if
+                                    arith_type("add", arith_type(op, lt, rt), "duration") else ("un", "neg", e)
+                                    if arith_type(op, lt, rt) in ("int", "float", "duration") else e, e),
+                              "temporal-arith")
     if ctx.shard == 0:
         negative(ctx)
     contracts.flush_counts(ctx)
